@@ -26,6 +26,9 @@ DECLARED = core.ALL_ALGS + [0, -1, -6, -9, -35, -40, -256, -260, 7, 257]
 # signing schemes that no registered algorithm identifier denotes: PSS whose mask function uses another hash than the message,
 # PKCS#1 v1.5 / ECDSA over hashes outside the table. Whatever the key declares, these must not verify.
 EXOTIC = [("pss", "sha256", "sha1"), ("pss", "sha384", "sha1"), ("pss", "sha512", "sha256"), ("pss", "sha256", "sha512"),
+          # ... and with the salt lengths other stacks default to (20 = Java's PSSParameterSpec.DEFAULT, 0, the hash of the mask)
+          ("pss", "sha256", "sha1", 20), ("pss", "sha384", "sha1", 20), ("pss", "sha512", "sha1", 20), ("pss", "sha256", "sha1", 0),
+          ("pss", "sha512", "sha256", 32), ("pss", "sha256", "sha384", 48),
           ("pkcs1", "sha224", None), ("pkcs1", "sha3_256", None),
           # EMSA-PKCS1-v1_5 blocks that are not what the scheme prescribes: the bare digest without its DigestInfo, and the
           # digest wrapped in the DigestInfo of another hash (RIPEMD-160's OID)
@@ -39,7 +42,8 @@ def sign_exotic(priv, scheme, data):
     from cryptography.hazmat.primitives.asymmetric import ec, padding
     H = {"sha1": hashes.SHA1, "sha224": hashes.SHA224, "sha256": hashes.SHA256, "sha384": hashes.SHA384, "sha512": hashes.SHA512,
          "sha3_256": hashes.SHA3_256}
-    kind, h, mgf = scheme
+    kind, h, mgf = scheme[:3]
+    salt = scheme[3] if len(scheme) > 3 else None
     k = core.key_kind(priv)
     if kind in ("pkcs1-bare", "pkcs1-other-oid") and k == "rsa":
         import hashlib
@@ -54,7 +58,7 @@ def sign_exotic(priv, scheme, data):
         return pow(int.from_bytes(em, "big"), nums.d, n).to_bytes(klen, "big")
     try:
         if kind == "pss" and k == "rsa":
-            return priv.sign(data, padding.PSS(mgf=padding.MGF1(H[mgf]()), salt_length=H[h]().digest_size), H[h]())
+            return priv.sign(data, padding.PSS(mgf=padding.MGF1(H[mgf]()), salt_length=H[h]().digest_size if salt is None else salt), H[h]())
         if kind == "pkcs1" and k == "rsa":
             return priv.sign(data, padding.PKCS1v15(), H[h]())
         if kind == "ecdsa" and k == "ec":
